@@ -149,6 +149,19 @@ def handle : List String → String
         | .outOfFuel => "fuel"
       else "bad-op"
     | _, _, _ => "bad-op"
+  | ["binter", policy, arg, initial, scorers] =>
+    match f32? arg, f32? initial, (scorers.splitOn "/").mapM parseScorer with
+    | some arg, some θ0, some ss =>
+      if policy == "kth" ∨ policy == "stair" ∨ policy == "const" then
+        let k := if policy == "kth" then arg.toBits.toNat else 0
+        let fuel := (ss.map (·.rest.length)).sum * 2 + (ss.map (·.blocks.length)).sum * 2 + 16
+        match BlockWand.blockWandInter (fcbOf policy arg k) fuel (({ θ := θ0 } : FCb), θ0) ss with
+        | .ok (st, θ) => showCalls st θ
+        | .assertFailed => "assert"
+        | .skipAhead => "skip-ahead"
+        | .outOfFuel => "fuel"
+      else "bad-op"
+    | _, _, _ => "bad-op"
   | ["wand1", policy, arg, initial, blocks] =>
     match arg.toNat?, initial.toNat?, (if blocks == "-" then some [] else (blocks.splitOn ";").mapM parseBlock) with
     | some arg, some θ0, some bs =>
